@@ -354,17 +354,20 @@ class Host:
             return 'complete'
         from treadmill import subproc
         self.arm(cut)
+        interrupted = False
         try:
             _run._unshare_network(self.tm_env, container_dir, app)
         except Kill:
             if not self.cut_fired:
                 raise
+            interrupted = True
         except subproc.CalledProcessError:
             if not (self.cut_fired and self.cut and self.cut[0] == 'error'):
                 raise
+            interrupted = True
         finally:
-            fired = self.disarm()
-        if fired:
+            self.disarm()
+        if interrupted:
             c.close_sockets()       # the process died, its sockets with it
             c.stage = 'aborted'
             return 'interrupted'
